@@ -12,7 +12,7 @@ CLAIMED = {
    ref="DESIGN.md 5 (C05), 3"),
  "C06": dict(
    text="Bounded model checking of the real amount/percentage text codec (AmountFromString, Unmarshal*, String, PercentageFromString, real strconv.ParseInt source) with z3: for every string of up to N arbitrary bytes the solver shows acceptance <=> membership in the published pattern (NFA built from the JSONSchema pattern, required equal to data/schemas/num/*.json) and that the value read is the denoted decimal; for every int64 x exponent 0..18 the written text matches the pattern and reads back; 17-20 digit strings cover the 64-bit boundary.",
-   note="Assumes go/ssa faithful, z3 sound, std-lib models (Sprintf, strconv digit formatting, strings.Index/Count) differential-tested; percentage reader also accepts the documented factor form and empty string. Bounds: strings <= 5 bytes quick / 8 thorough fully symbolic; long digit strings 17-20+0-2 digits.",
+   note="Assumes go/ssa faithful, z3 sound, std-lib models (Sprintf, strconv digit formatting, strings.Index/Count) differential-tested; percentage reader also accepts the documented factor form and empty string. Bounds: strings <= 5 bytes quick / 8 thorough fully symbolic; long digit strings 17-20+0-2 digits. Known finding (open): MinInt64 does not read back.",
    ref="DESIGN.md 5 (C06)"),
  "C13": dict(
    text="Bounded model checking of the real check-digit validators (DE, IT, FR VAT+SIREN, PL, GR, AT, BE, CH, NL, PT, BR, IN, ES DNI/NIE/CIF, CO in thorough, common Luhn) with z3: for every ASCII string of the national length (and +-1) the solver shows accepted <=> national format and check digit per a reference statement of the published algorithm, and for IT/FR/PL/CH (DE/AT thorough) that no two accepted codes differ in exactly one digit (2-safety). Regular expressions are evaluated as NFAs built from the pattern strings in the package initialisers. Normalisation: for every ASCII string of 1..4 (6) bytes tax.NormalizeIdentity is idempotent, insensitive to separators, letter case and a leading country prefix, keeps the digits in order and yields only capitals and digits; the Swiss normaliser maps a valid UID written with any VAT suffix in any letter case and with separators to the bare code.",
